@@ -1,6 +1,7 @@
 import LlgoVerif.Lemmas.Chan
 import LlgoVerif.Lemmas.ChanThreads
 import LlgoVerif.Lemmas.ChanLive
+import LlgoVerif.Lemmas.ChanResults
 /-!
 # C10 — channels and select obey Go's channel semantics under every schedule
 
@@ -400,5 +401,146 @@ example : ∃ s, Reachable (init .fixed [0] [[.recv 0]]) s ∧ 0 < s.owner.lengt
   refine ⟨(runSched (init .fixed [0] [[.recv 0]]) [.step 0, .step 0, .step 0]).getD (init .fixed [] []), ?_,
     by decide, by decide, by decide, by decide, by decide⟩
   exact reachable_runSched Reachable.init [.step 0, .step 0, .step 0] (by decide)
+
+/-! ## the fixed variant, programs without select (`noSelect progs`, decidable): results-level theorems
+
+`sentVals th c` / `okVals th c` are read off the thread's RESULTS (completed `c <- v` / `v, true := <-c`);
+`sentFrom ch t` / `handedTo ch t` are read off the channel HISTORY (`sentBy`, `recvBy`: who committed / whose variable
+received each value, in commit order; `sent = sentBy.map snd`, `recvd = recvBy.map snd` by `ChanInv`). -/
+
+/-- (1) NO LOSS, NO DUPLICATION, at the level of what the goroutines observe — every reachable state, any number of
+    threads, every schedule with spurious wake-ups:
+    * every value whose send completed is in the history (`sentFrom = sentVals`, per sender, in order) and the
+      history of sends is exactly: the values handed to receivers, then the buffer (`sent = recvd ++ contents`);
+    * every value handed to receiver `t` has been returned by `t` with `ok = true`, once, in order — except at most
+      one value that already sits in the variable of `t`'s running receive (served, second phase, not yet returned);
+      each history entry names one receiver, so no value is reported by two receives. -/
+theorem no_loss_fixed {caps : List Nat} {progs : List (List Op)} {s : State} (hns : noSelect progs = true)
+    (h : Reachable (init .fixed caps progs) s) (c : Cid) (hc : c < s.chans.length) :
+    (s.chan c).sent = (s.chan c).recvd ++ (s.chan c).contents ∧
+    (s.chan c).sentBy.map (·.2) = (s.chan c).sent ∧ (s.chan c).recvBy.map (·.2) = (s.chan c).recvd ∧
+    (∀ t, sentFrom (s.chan c) t = sentVals (s.thread t) c) ∧
+    (∀ t, handedTo (s.chan c) t =
+      okVals (s.thread t) c ++ inflightOf (s.thread t).pc (s.thread t).rv c (s.chan c).recvseq) := by
+  obtain ⟨_, _, hi, _⟩ := reachable_plain_fixed hns h
+  have hg := reachable_ginv h c
+  refine ⟨?_, hg.sent_by, hg.recv_by, fun t => hi.sentL t c hc, fun t => hi.recvL t c hc⟩
+  by_cases hcap : (s.chan c).cap = 0
+  · have hl := hg.unb_len hcap
+    have : (s.chan c).contents = [] := by simp [Chan.contents, hl, ringFrom]
+    rw [this, List.append_nil]; exact hg.unb_hist hcap
+  · exact hg.fifo (by omega)
+
+/-- … in particular, when every thread is done nothing is in flight: what was sent on `c` by `t` is what `t` reported,
+    and what the receivers reported with `ok = true`, receiver by receiver, is what the history handed out -/
+theorem no_loss_fixed_done {caps : List Nat} {progs : List (List Op)} {s : State} (hns : noSelect progs = true)
+    (h : Reachable (init .fixed caps progs) s) (c : Cid) (hc : c < s.chans.length) (t : Tid)
+    (hd : (s.thread t).pc = .done) : handedTo (s.chan c) t = okVals (s.thread t) c := by
+  have := (no_loss_fixed hns h c hc).2.2.2.2 t
+  rw [hd] at this
+  simpa [inflightOf] using this
+
+example : noSelect [[.send 0 42, .close 0], [.recv 0]] = true := by decide
+
+/-- a receive that returns `ok = false` (fixed variant, this critical section): the channel is closed, a buffered
+    channel is drained, and for the second phase of an unbuffered receive NO hand-off happened since it armed -/
+theorem recv_false_fixed (p : Point) (t : Tid) (ch : Chan) (hinv : ChanInv ch) (hf : ch.fixed = true)
+    (hpl : p.plain = true) (hp2 : p.secondPhase = true → ch.cap = 0)
+    (h : (body p t ch).out = .unlock (.recv p.chan false)) :
+    ch.closed = true ∧ ch.len = 0 ∧ (∀ seq, p.secondPhase2 = some seq → ch.recvseq = seq) := by
+  obtain ⟨h1, h2⟩ := recv_after_close p t ch hinv false p.chan hp2 (Or.inl h)
+  refine ⟨h1, h2, fun seq hs => ?_⟩
+  have := (body_unlock_ret p t ch _ hpl h).2.2.2
+  rw [hs] at this
+  have h3 := this hf
+  injection h3 with _ h4
+  simpa using h4.symm
+
+/-- (2) THE STALL CLASS IS GONE, all schedules, any number of threads: a sender asleep in `ChanSend` and a receiver
+    asleep in `ChanRecv` (first loop or second phase) never coexist on an unbuffered channel.  (`waiting = true` =
+    asleep in `Cond.Wait`, not signalled, no spurious wake-up pending.) -/
+theorem no_stuck_pair_fixed_unbuffered {caps : List Nat} {progs : List (List Op)} {s : State}
+    (hns : noSelect progs = true) (h : Reachable (init .fixed caps progs) s) (c : Cid)
+    (hc : c < s.chans.length) (hco : c < s.owner.length) (t1 t2 : Tid) (v : Val)
+    (h1 : (s.thread t1).pc = .at (.sendWaitU c v)) (w1 : (s.thread t1).waiting = true)
+    (h2 : (∃ sl, (s.thread t2).pc = .at (.recvWaitU c sl)) ∨ (∃ b seq, (s.thread t2).pc = .at (.recv2Wait c b seq)))
+    (w2 : (s.thread t2).waiting = true) : False := by
+  obtain ⟨hp, ha, _, hsu⟩ := reachable_plain_fixed hns h
+  have c1 := hsu t1 _ h1 w1
+  simp only [waitCondU, Point.chan] at c1
+  rcases h2 with ⟨sl, h2⟩ | ⟨b, seq, h2⟩
+  · have c2 := hsu t2 _ h2 w2
+    simp only [waitCondU, Point.chan] at c2
+    exact c1.2.1 c2.2.1
+  · obtain ⟨hw, hm⟩ := reachable_waitInv h
+    have hfix : (s.chan c).fixed = true := reachable_fixInv h c hc
+    have c2 := (hw.cond t2 _ h2 w2 hco).resolve_right (not_busy_of_free hm hco (hp.free c)) hfix
+    have := (ha.arm t2 c b seq hc (Or.inr h2)).2.2 c2.1.symm
+    exact c1.2.1 this.1
+
+/-- (2') with the buffered case (`no_stuck_pair_partial`): under `noSelect`, in the fixed variant, NO pair of a
+    sleeping sender and a sleeping receiver exists on any channel, whatever the loops they sleep in -/
+theorem no_stuck_pair_fixed {caps : List Nat} {progs : List (List Op)} {s : State}
+    (hns : noSelect progs = true) (h : Reachable (init .fixed caps progs) s) (c : Cid)
+    (hc : c < s.chans.length) (hco : c < s.owner.length) (t1 t2 : Tid) (v : Val)
+    (h1 : (s.thread t1).pc = .at (.sendWaitU c v) ∨ (s.thread t1).pc = .at (.sendWaitB c v))
+    (w1 : (s.thread t1).waiting = true)
+    (h2 : (∃ sl, (s.thread t2).pc = .at (.recvWaitU c sl)) ∨ (∃ sl, (s.thread t2).pc = .at (.recvWaitB c sl)) ∨
+      (∃ b seq, (s.thread t2).pc = .at (.recv2Wait c b seq)))
+    (w2 : (s.thread t2).waiting = true) : False := by
+  obtain ⟨hp, ha, _, hsu⟩ := reachable_plain_fixed hns h
+  obtain ⟨hw, hm⟩ := reachable_waitInv h
+  have hnb := not_busy_of_free hm hco (hp.free c)
+  rcases h1 with h1 | h1
+  · rcases h2 with h2 | ⟨sl, h2⟩ | h2
+    · exact no_stuck_pair_fixed_unbuffered hns h c hc hco t1 t2 v h1 w1 (Or.inl h2) w2
+    · have c1 := hsu t1 _ h1 w1
+      have c2 := (hw.cond t2 _ h2 w2 hco).resolve_right hnb
+      simp only [waitCondU, waitCond, Point.chan] at c1 c2
+      exact c2.2 c1.1
+    · exact no_stuck_pair_fixed_unbuffered hns h c hc hco t1 t2 v h1 w1 (Or.inr h2) w2
+  · have c1 := (hw.cond t1 _ h1 w1 hco).resolve_right hnb
+    simp only [waitCond, Point.chan] at c1
+    rcases h2 with ⟨sl, h2⟩ | ⟨sl, h2⟩ | ⟨b, seq, h2⟩
+    · have c2 := hsu t2 _ h2 w2
+      simp only [waitCondU, Point.chan] at c2
+      exact c1.2 c2.1
+    · exact no_stuck_pair_partial h c hco (hp.free c) t1 t2 v sl h1 w1 h2 w2
+    · exact c1.2 (ha.arm t2 c b seq hc (Or.inr h2)).1
+
+/-- (3) ORDER PER (SENDER, RECEIVER) on an unbuffered channel: the values that went from `S` to `R`, in hand-off
+    order, form a subsequence of `S`'s completed sends in program order AND of what `R` returned with `ok = true` in
+    program order (plus possibly the one value `R` holds in flight) — deliveries respect the send order. -/
+theorem fifo_unbuffered_fixed {caps : List Nat} {progs : List (List Op)} {s : State}
+    (hns : noSelect progs = true) (h : Reachable (init .fixed caps progs) s) (c : Cid)
+    (hc : c < s.chans.length) (hcap : (s.chan c).cap = 0) (S R : Tid) :
+    (pairVals (s.chan c) S R).Sublist (sentVals (s.thread S) c) ∧
+    (pairVals (s.chan c) S R).Sublist
+      (okVals (s.thread R) c ++ inflightOf (s.thread R).pc (s.thread R).rv c (s.chan c).recvseq) ∧
+    (s.chan c).sentBy.map (·.2) = (s.chan c).recvBy.map (·.2) := by
+  obtain ⟨_, hsb, hrb, hS, hR⟩ := no_loss_fixed hns h c hc
+  have hg := reachable_ginv h c
+  have hv : (s.chan c).sentBy.map (·.2) = (s.chan c).recvBy.map (·.2) := by
+    rw [hsb, hrb]; exact hg.unb_hist hcap
+  obtain ⟨a, b⟩ := pairVals_sublist (s.chan c) S R hv
+  rw [hS S] at a
+  rw [hR R] at b
+  exact ⟨a, b, hv⟩
+
+/-- the witness: two senders, one receiver, values arrive as `S0`'s 1,2 in order -/
+example : ∃ s, Reachable (init .fixed [0] [[.send 0 1, .send 0 2], [.recv 0, .recv 0]]) s ∧
+    pairVals (s.chan 0) 0 1 = [1, 2] ∧ okVals (s.thread 1) 0 = [1, 2] ∧ sentVals (s.thread 0) 0 = [1, 2] := by
+  refine ⟨(runSched (init .fixed [0] [[.send 0 1, .send 0 2], [.recv 0, .recv 0]])
+      [.step 1, .step 1, .step 0, .step 0, .step 1, .step 1, .step 0, .step 1]).getD (init .fixed [] []), ?_,
+    by decide, by decide, by decide⟩
+  exact reachable_runSched Reachable.init
+    [.step 1, .step 1, .step 0, .step 0, .step 1, .step 1, .step 0, .step 1] (by decide)
+
+/-- the hypotheses are satisfiable (a sender asleep on an unbuffered channel) -/
+example : ∃ s, Reachable (init .fixed [0] [[.send 0 5]]) s ∧ 0 < s.chans.length ∧ 0 < s.owner.length ∧
+    (s.thread 0).pc = .at (.sendWaitU 0 5) ∧ (s.thread 0).waiting = true := by
+  refine ⟨(runSched (init .fixed [0] [[.send 0 5]]) [.step 0, .step 0]).getD (init .fixed [] []), ?_,
+    by decide, by decide, by decide, by decide⟩
+  exact reachable_runSched Reachable.init [.step 0, .step 0] (by decide)
 
 end LlgoVerif.Chan
